@@ -390,7 +390,7 @@ def _df_reindex(ts, index, method = None, limit = None):
                 raise ValueError('trying to reindex numpy array %s using pandas index %s'%(ts, index))
         elif is_int(index):
             if index<len(ts):
-                res = ts[-index:]
+                res = ts[len(ts)-index:] ## not ts[-index:], which is the whole array when index is 0
             elif index>len(ts):
                 shape = (index - len(ts),) + ts.shape[1:]
                 res = np.concatenate([np.full(shape, np.nan),ts])
